@@ -32,7 +32,7 @@ func c11Sign(w *World, f string) string {
 	return ""
 }
 
-var c11OpKinds = []string{"get", "name", "package", "name+package"}
+var c11OpKinds = []string{"get", "name", "package", "name+package", "prepare", "validate-info"}
 
 func permutations(xs []string) [][]string {
 	if len(xs) <= 1 {
@@ -347,6 +347,20 @@ func runHistory(rt *Runtime, w *World, h []Op, refs map[string]*RefInfo, elog *E
 		case "get":
 			_, err := cfg.Get(op.Format)
 			elog.Add("get %s failed=%v", op.Format, err != nil)
+		case "prepare", "validate-info":
+			// library entry points a caller may use on the settings of one
+			// format without packaging them
+			info, err := cfg.Get(op.Format)
+			if err != nil {
+				return "get: " + err.Error()
+			}
+			info = nfpm.WithDefaults(nfpm.WithDefaults(info)) // defaults are idempotent by contract
+			if op.Op == "prepare" {
+				err = nfpm.PrepareForPackager(info, op.Format)
+			} else {
+				err = nfpm.Validate(info)
+			}
+			elog.Add("%s %s failed=%v", op.Op, op.Format, err != nil)
 		case "name":
 			info, err := cfg.Get(op.Format)
 			if err != nil {
